@@ -37,7 +37,8 @@ def fitting(tag):
 
 
 DATE = st.dates(min_value=datetime.date(1000, 1, 1), max_value=datetime.date(9999, 12, 31))
-CONTRACT = st.one_of(st.just(None), st.just('Pass'),
+CONTRACT = st.one_of(st.just(None), st.just('Pass'), st.sampled_from(['None+N', 'None+W', 'Pass+S', 'Pass+E']),   # passed out, and passed out with a declarer still set on the object
+
                      st.tuples(st.integers(0, 34), st.integers(0, 2), st.integers(0, 3), st.integers(0, 13)),
                      st.tuples(st.integers(0, 34), st.integers(0, 2), st.integers(0, 3), st.integers(0, 13)),
                      st.tuples(st.integers(0, 34), st.integers(1, 2), st.integers(0, 3), st.integers(0, 13)))
@@ -62,6 +63,9 @@ def mk_contract(r):
         return Contract(final_bid=None, vul=be.VUL[r['vul']]), None
     if c == 'Pass':
         return Contract(final_bid=Bid['Pass'], vul=be.VUL[r['vul']]), None
+    if isinstance(c, str):      # 'None+N' / 'Pass+S': a passed-out contract object that still carries a declarer
+        form, seat = c.split('+')
+        return Contract(final_bid=None if form == 'None' else Bid['Pass'], vul=be.VUL[r['vul']], declarer=be.SEAT[A.SEATS.index(seat)]), None
     bid, dbl, decl, tricks = c
     return be.contract_of(bid, dbl, r['vul'], decl), tricks
 
@@ -158,7 +162,7 @@ def check_export(results, header, stats=None, split=None, reuse=False):
         if reuse:
             stats.cls('one parser object used for both reads')
         stats.cls(f'{min(len(results), 3)}{"+" if len(results) >= 3 else ""} results' + (' with header' if header else ''))
-        po = any(r['contract'] in (None, 'Pass') for r in results)
+        po = any(r['contract'] is None or isinstance(r['contract'], str) for r in results)
         dbl = any(isinstance(r['contract'], tuple) and r['contract'][1] > 0 for r in results)
         if any('  ' in x for r in results for x in [r['event'], r['site']] + r['players']):
             stats.cls('a name with a run of blanks')
